@@ -24,6 +24,21 @@ package main
 //   - accumulators `res *[]T` (whitelist field Acc): threaded through and returned
 //   - struct literals naming every field; cmp.Equal on leaf values; slices.Reverse of a local slice;
 //     uint(i), int(math.Max/Min(float64(a), float64(b)))
+// Added by the second extension (xlate7d; each still fails loudly outside its stated shape):
+//   - DYNAMIC DISPATCH of dom.Node interface methods (translate_dispatch.go): a whitelist entry with `Dispatch` is
+//     the method table; the generator enumerates every implementation of the interface in the package
+//   - receivers `*leaf`, fields `l.value`, `&leaf{value: v}`; `c.ensureChildren()`; `c2.children[k] = v` on a local builder;
+//     `len(m)` of a Go map; `$0` (the receiver) in fuel expressions
+//   - `map[string]dom.Leaf` (kind leafmap): `make`, `m[k] = v`, range in key order; accumulators that point to such a
+//     map (`ret *map[string]Leaf`, with the alias `m := *ret`); `&local` as the accumulator argument of a callee
+//   - `map[string]dom.ContainerBuilder` (kind contmap): index only; `m[k]` on a map[string]Node (nil when absent)
+//   - calls of function-valued parameters (`fn(v)`: visitors, predicates) — the parameter has a type `… → Go.Res …`;
+//     calls of translated CONCRETE methods on a receiver of an implementation type (`c.Flatten()`)
+//   - `strings.Split(s, sep)` for a constant one-character separator; `re.FindStringIndex` for the package-level
+//     regexps listed in xlRegexpFind; comma-ok type assertions `l, ok := n.(dom.List)` in an if-else
+//   - whitelist flag `Plain` (the codec side): `interface{}` ↦ `Val`, conversions of []interface{} / map[string]interface{}
+//     to interface{} are the constructors, `make([]interface{}, n)`, `res[i] = v` on a local slice that the function
+//     made itself and uses only by index assignment, len and return (no alias)
 // NOT translated (rejected): in-place mutation of a builder the function did not create itself (the
 // whole of diff/apply.go and the patch handlers work that way: `current = x.(ContainerBuilder)` walks
 // INTO the caller's tree and edits it there), type switches, closures, break/continue.
@@ -68,6 +83,11 @@ var xlDomWhitelist = []xlFunc{
 	{Pkg: "dom", Recv: "listImpl", Name: "Clone", Lean: "listClone", RecFuel: "2 * GoDom.sizeL $0 + 2", RecGroup: "clone"},
 	{Pkg: "dom", Recv: "containerImpl", Name: "Clone", Lean: "containerClone", RecFuel: "2 * GoDom.sizeC $0 + 2", RecGroup: "clone"},
 	{Pkg: "dom", Name: "Clone", Lean: "Clone", Dispatch: "Node", RecFuel: "2 * GoDom.sizeN $1 + 1", RecGroup: "clone"},
+	// SameAs of the three kinds and its method table (not recursive: a plain definition)  [C05]
+	{Pkg: "dom", Recv: "leaf", Name: "SameAs", Lean: "leafSameAs", Nullable: []string{"node"}},
+	{Pkg: "dom", Recv: "listImpl", Name: "SameAs", Lean: "listSameAs", Nullable: []string{"node"}},
+	{Pkg: "dom", Recv: "containerImpl", Name: "SameAs", Lean: "containerSameAs", Nullable: []string{"node"}},
+	{Pkg: "dom", Name: "SameAs", Lean: "SameAs", Dispatch: "Node"},
 	// dom/container.go: Flatten and its walkers, Search  [C02]
 	{Pkg: "dom", Name: "flattenLeaf", Lean: "domFlattenLeaf", Acc: "ret"},
 	{Pkg: "dom", Name: "flattenList", Lean: "domFlattenList", Acc: "ret", RecFuel: "GoDom.sizeL $1 + 1", RecGroup: "domflatten"},
@@ -417,6 +437,32 @@ func (x *xl) domMethod(c *ast.CallExpr, sel *ast.SelectorExpr) ([]string, string
 			parts = append(parts, sa)
 		}
 		return b, "(" + strings.Join(parts, " ") + ")", true, nil
+	}
+	// any other interface method with a generated method table (SameAs …)
+	if dn, ok := x.w.dispDone[m]; ok && m != "Equals" && m != "Clone" {
+		d := x.w.dispInfo[m]
+		sig := d.method.Type().(*types.Signature)
+		if len(c.Args) != sig.Params().Len() {
+			return nil, "", true, x.errf(c, "call of %s: argument count", m)
+		}
+		b, r, err := x.domRecv(sel.X)
+		if err != nil {
+			return nil, "", true, err
+		}
+		r, err = x.coerce(sel.X, r, x.typeOf(sel.X), false, x.nodeType(), false)
+		if err != nil {
+			return nil, "", true, err
+		}
+		args := []string{dn, r}
+		for i, a := range c.Args {
+			ba, sa, err := x.exprTo(a, sig.Params().At(i).Type(), d.nullAt[i])
+			if err != nil {
+				return nil, "", true, err
+			}
+			b, args = append(b, ba...), append(args, sa)
+		}
+		b, t := x.bindTmp(b, strings.Join(args, " "))
+		return b, t, true, nil
 	}
 	// Equals / Clone through the interface: the hand-written primitive, unless the method is being translated
 	if (m == "Equals" && len(c.Args) == 1 || m == "Clone" && len(c.Args) == 0) && k != "leaf" {
